@@ -106,6 +106,28 @@ def finish (c : Cfg) (st : St) : Option (St × Outcome) :=
     else some ({ st with why := why }, .fall why)
   else none
 
+/-- What `end_parallel_control_flow_block` emitted for ONE compiled loop: it depends on the STATIC shape of the body
+(which labels are used): the fix-up `if (exc_type) why = 4;`, `case 3: goto return`, `case 4: restore; goto error`. -/
+structure Emit where
+  fixup : Bool
+  caseRet : Bool
+  caseErr : Bool
+  deriving DecidableEq, Repr
+
+/-- Current source: fix-up and `case 4` iff the body can raise (error label used), `case 3` iff it contains a `return`. -/
+def srcEmit (hasRaise hasRet : Bool) : Emit := { fixup := hasRaise, caseRet := hasRet, caseErr := hasRaise }
+
+/-- The code after the region as emitted for a given static shape (a `why` without a case falls through). -/
+def finishEmit (e : Emit) (c : Cfg) (st : St) : Option (St × Outcome) :=
+  if allFinished c st then
+    let why := if e.fixup && st.slot.isSome then 4 else st.why
+    if why = 3 && e.caseRet then some ({ st with why := why }, .ret st.ret)
+    else if why = 4 && e.caseErr then
+      some ({ st with why := why, slot := none, cur := upd st.cur 0 st.slot,
+                      released := (st.cur 0).toList ++ st.released }, .raise st.slot)
+    else some ({ st with why := why }, .fall why)
+  else none
+
 /-- The documented best-effort outcome set, as a function of the iterations that really ran. -/
 def allowedOutcome (kinds : Nat → Kind) (ran : List Nat) : Outcome → Bool
   | .raise (some e) => ran.contains e && kinds e == .raise
